@@ -40,8 +40,9 @@ package newick
 //@   assigns stream(s.r)
 //@   ensures [never_gives_back_more_than_it_took] remaining(s.r) <= old(remaining(s.r)) && remaining(s.r) >= 0
 //@   ensures [consumes_at_least_one_rune_unless_at_end] old(remaining(s.r)) > 0 ==> remaining(s.r) < old(remaining(s.r))
+//@   ensures [numeric_exactly_when_the_whole_literal_parses_as_a_float] (tok == NUMERIC || tok == IDENT) && ((tok == NUMERIC) == parsesfloat(lit))
 //@   loop 1
-//@     assigns stream(s.r)
+//@     assigns stream(s.r), content(buf)
 //@     invariant [progress_so_far] remaining(s.r) >= 0 && remaining(s.r) <= old(remaining(s.r)) && (old(remaining(s.r)) > 0 ==> remaining(s.r) < old(remaining(s.r)))
 //@     decreases remaining(s.r)
 
